@@ -96,6 +96,26 @@ func genC20(r *Rng, tier string, emit func(string, Tok)) {
 		// a reader that cannot seek: Rewind reports -1 and the stream simply continues
 		emit("rewind-plain", scenario{kind: r.Intn(2) * 2, optSize: 188, fault: -1, data: data, ops: []int{1, 1, 2, 3}}.tok())
 	}
+	// long histories of rewinds on streams whose PAT names two PMT PIDs in two sections, or two programs on one PMT
+	// PID, repeated several times per pass: 130..260 rewinds after one to three calls each, or after whole passes
+	for k := 0; k < scale(tier, 6, 40); k++ {
+		m := genRefStream(r, streamOpts{PESPIDs: r.Range(1, 2), UnitsPerPID: 2, MaxPES: 200, Tables: true, Repeats: r.Range(1, 3), TwoPMTPIDs: k%2 == 0})
+		data := m.bytes()
+		total := len(runScenario(scenario{kind: 1, optSize: 188, fault: -1, data: data, ops: []int{3}}).results)
+		var ops []int
+		for j := r.Range(130, 260); j > 0; j-- {
+			n := r.Range(1, 3)
+			if k%3 == 2 && j%8 == 0 {
+				n = total // a whole pass, the last call returning ErrNoMorePackets
+			}
+			for c := n; c > 0; c-- {
+				ops = append(ops, 1)
+			}
+			ops = append(ops, 2)
+		}
+		ops = append(ops, 3)
+		emit("rewind-many", scenario{kind: 1, optSize: []int{188, 0}[k%2], fault: -1, data: data, ops: ops}.tok())
+	}
 }
 
 func oracleC20(s scenario, run *demuxRun) string {
@@ -487,6 +507,29 @@ func genC02(r *Rng, tier string, emit func(string, Tok)) {
 		m := genRefStream(r, streamOpts{PESPIDs: r.Range(1, 7), UnitsPerPID: r.Range(1, 4), MaxPES: []int{60, 400, 1500, 70000}[r.Intn(4)%(3+r.Intn(2))],
 			Tables: true, Fillers: r.Bool(), SmallChunks: r.Chance(1, 3), Repeats: r.Intn(3)})
 		emit("stream", scenario{kind: r.Intn(2), optSize: 188, fault: -1, data: m.bytes(), ops: []int{3}}.tok())
+	}
+	// the PMT on a PID DVB reserves for SI (legal in MPEG); two PMT PIDs announced by two PAT sections
+	for k := 0; k < scale(tier, 8, 80); k++ {
+		m := genRefStream(r, streamOpts{PESPIDs: r.Range(1, 3), UnitsPerPID: 2, MaxPES: 300, Tables: true, Repeats: r.Intn(2), DVBPMTPID: k%2 == 0, TwoPMTPIDs: k%2 == 1, SmallChunks: r.Bool()})
+		emit("pmt-pid-kinds", scenario{kind: r.Intn(2), optSize: 188, fault: -1, data: m.bytes(), ops: []int{3}}.tok())
+	}
+	// sections of the largest legal size (section_length 1021: a PAT of 253 programs) and just below, cut at random
+	for _, np := range scaleList(tier, []int{253, 252}, []int{253, 252, 251, 200, 253, 253}) {
+		s1 := &refSection{TableID: 0, Ext: uint16(r.Bits(16)), Version: byte(r.Intn(32))}
+		for j := 0; j < np; j++ {
+			s1.Programs = append(s1.Programs, refProgram{Number: uint16(1 + j), PID: uint16(0x30 + j)})
+		}
+		u := refPSI(r, 0, []*refSection{s1})
+		cc := byte(r.Intn(16))
+		var d []byte
+		for _, p := range packetiseUnit(r, u, 0, &cc, r.Bool()) {
+			d = append(d, p.encode()...)
+		}
+		u2 := refPSI(r, 0, []*refSection{{TableID: 0, Ext: s1.Ext, Version: s1.Version, Programs: []refProgram{{Number: 1, PID: 0x30}}}})
+		for _, p := range packetiseUnit(r, u2, 1, &cc, false) {
+			d = append(d, p.encode()...)
+		}
+		emit("largest-section", scenario{kind: 1, optSize: 188, fault: -1, data: d, ops: []int{3}}.tok())
 	}
 	// bounded PES units at the top of the 16-bit PES_packet_length range (every value 65520..65535 in the thorough
 	// tier), followed by another unit of the PID so that they are flushed by a unit start, not by the end of the stream
